@@ -136,43 +136,46 @@ def pixels (inp : Input) (op : Nat) (fom : UInt8) (w : Nat) : Nat → St → Out
     if s.count > 0 then (body inp op fom w s).bind (pixels inp op fom w f)
     else .ok s
 
+/-- first `match opcode`: (opcode, count, offset) from the code byte -/
+def headerFirst (inp : Input) (c : Nat) (s : St) : Outcome (Nat × Nat × Nat × St) :=
+  let hi := c >>> 4
+  if hi = 0xC ∨ hi = 0xD ∨ hi = 0xE then .ok (hi - 6, c &&& 0xf, 16, s)
+  else if hi = 0xF then
+    let op := c &&& 0xf
+    if op < 9 then (readU16 inp s).bind fun (v, s) => .ok (op, v.toNat, 0, s)
+    else if op < 0xb then .ok (op, 8, 0, s)
+    else .ok (op, 1, 0, s)
+  else .ok (hi >>> 1, c &&& 0x1f, 32, s)
+
+/-- `if offset != 0 { … }`: extended / scaled run length -/
+def headerCount (inp : Input) (op count offset : Nat) (s : St) : Outcome (Nat × St) :=
+  if offset ≠ 0 then
+    let fillOrMix := op = 2 ∨ op = 7
+    if count = 0 then
+      (readU8 inp s).bind fun (b, s) => .ok (if fillOrMix then b.toNat + 1 else b.toNat + offset, s)
+    else if fillOrMix then .ok (count <<< 3, s)
+    else .ok (count, s)
+  else .ok (count, s)
+
+/-- second `match opcode`: colours, mix, masks, insert-mix flag; normalised opcode and fom_mask -/
+def headerSecond (inp : Input) (w op : Nat) (s : St) : Outcome (Nat × UInt8 × St) :=
+  if op = 0 then
+    .ok (0, 0, if s.lastop = 0 ∧ ¬ (s.x = w ∧ s.prev = none) then { s with insertmix := true } else s)
+  else if op = 8 then
+    (readU16 inp s).bind fun (a, s) => (readU16 inp s).bind fun (b, s) => .ok (8, 0, { s with c1 := a, c2 := b })
+  else if op = 3 then (readU16 inp s).bind fun (b, s) => .ok (3, 0, { s with c2 := b })
+  else if op = 6 ∨ op = 7 then (readU16 inp s).bind fun (m, s) => .ok (op - 5, 0, { s with mix := m })
+  else if op = 9 then .ok (2, 3, { s with mask := 3 })
+  else if op = 0xa then .ok (2, 5, { s with mask := 5 })
+  else .ok (op, 0, s)
+
 /-- order header: code byte → (opcode, fom_mask) and the state with count / colours / mix /
     mask / insertmix / lastopcode / mixmask set -/
 def header (inp : Input) (w : Nat) (s : St) : Outcome (Nat × UInt8 × St) :=
   (readU8 inp s).bind fun (code, s) =>
-  let c := code.toNat
-  let hi := c >>> 4
-  -- first match
-  let first : Outcome (Nat × Nat × Nat × St) :=      -- opcode, count, offset
-    if hi = 0xC ∨ hi = 0xD ∨ hi = 0xE then .ok (hi - 6, c &&& 0xf, 16, s)
-    else if hi = 0xF then
-      let op := c &&& 0xf
-      if op < 9 then (readU16 inp s).bind fun (v, s) => .ok (op, v.toNat, 0, s)
-      else if op < 0xb then .ok (op, 8, 0, s)
-      else .ok (op, 1, 0, s)
-    else .ok (hi >>> 1, c &&& 0x1f, 32, s)
-  first.bind fun (op, count, offset, s) =>
-  let counted : Outcome (Nat × St) :=
-    if offset ≠ 0 then
-      let fillOrMix := op = 2 ∨ op = 7
-      if count = 0 then
-        (readU8 inp s).bind fun (b, s) => .ok (if fillOrMix then b.toNat + 1 else b.toNat + offset, s)
-      else if fillOrMix then .ok (count <<< 3, s)
-      else .ok (count, s)
-    else .ok (count, s)
-  counted.bind fun (count, s) =>
-  -- second match
-  let second : Outcome (Nat × UInt8 × St) :=
-    if op = 0 then
-      .ok (0, 0, if s.lastop = 0 ∧ ¬ (s.x = w ∧ s.prev = none) then { s with insertmix := true } else s)
-    else if op = 8 then
-      (readU16 inp s).bind fun (a, s) => (readU16 inp s).bind fun (b, s) => .ok (8, 0, { s with c1 := a, c2 := b })
-    else if op = 3 then (readU16 inp s).bind fun (b, s) => .ok (3, 0, { s with c2 := b })
-    else if op = 6 ∨ op = 7 then (readU16 inp s).bind fun (m, s) => .ok (op - 5, 0, { s with mix := m })
-    else if op = 9 then .ok (2, 3, { s with mask := 3 })
-    else if op = 0xa then .ok (2, 5, { s with mask := 5 })
-    else .ok (op, 0, s)
-  second.bind fun (op, fom, s) =>
+  (headerFirst inp code.toNat s).bind fun (op, count, offset, s) =>
+  (headerCount inp op count offset s).bind fun (count, s) =>
+  (headerSecond inp w op s).bind fun (op, fom, s) =>
     .ok (op, fom, { s with lastop := op, mixmask := 0, count := count })
 
 /-- one order: header, then its pixel loop.  Fuel for the pixel loop: every iteration
